@@ -1,6 +1,7 @@
 """Calls: argument evaluation, Python call binding, contract application, inlining, opaque callees."""
 import ast
 import os
+import re
 import sys
 import z3
 
@@ -625,6 +626,8 @@ class CallMixin:
                 # whatever a call returns exists: a reference result denotes an object allocated by now (language-level fact, E11)
                 s.assume(z3.Implies(Val.is_RefV(result.t), z3.And(Val.rv(result.t) >= 1, Val.rv(result.t) <= a1)))
             for label, src, props in c.ensures:
+                if any(re.search(r"\b%s\b" % re.escape(al), src) for al in c.extra.get("aliases", {})):
+                    continue        # a clause about a local of the callee (alias): checked in its own verification, invisible to callers
                 s.assume(self.spec_eval(s, src, fid, old_heap, entry, {"result": result}))
             self.run_after(s, "after", name, n, fid, old_heap, entry, {"result": result}, c.extra.get("ghosts", {}) if c is self.cur else ())
             if c.raises:
